@@ -113,7 +113,7 @@ class NodePairRemovalDecoder(ImprovementDecoder):
                 ),
                 -1,
             )
-        ).squeeze()  # (batch_size, graph_size/2)
+        ).squeeze(-1)  # (batch_size, graph_size/2)
 
         return compatibility_pairing
 
@@ -212,7 +212,7 @@ class NodePairReinsertionDecoder(ImprovementDecoder):
                 ),
                 -1,
             )
-        ).squeeze()
+        ).squeeze(-1)
 
         return compatibility  # (batch_size, graph_size+1, graph_size+1)
 
